@@ -61,13 +61,16 @@ theorem C10_once (m : Module) (ds : List Diag) (h : lintModel m = .ok ds) :
   subst this
   exact ⟨st', hu, hds, h1, h2, h3⟩
 
-/-- `lint` answers whenever no read of `locals` resolves to a MultiName ... -/
-theorem C10_total_partial (m : Module) (h : NoMultiLocals m) : ∃ ds, lintModel m = .ok ds :=
-  total_partial m h
+/-- `lint` answers on every analysed module: no path of the usage loop or of the report loop raises -/
+theorem C10_total : C10_total_stmt :=
+  total
 
-/-- ... and not always: open finding `lint-raises-multiname-locals` (Witness/C10.lean) -/
-theorem C10_total_witness : ¬ C10_total_stmt :=
-  SuppModel.Witness.C10.not_total
+/-- legacy (finding `lint-raises-multiname-locals`, fixed by f39595c): the previous usage loop raised on a module
+    satisfying every hypothesis above, so its never-read local was not reported; the current loop reports it -/
+theorem C10_legacy_witness :
+    SuppModel.Witness.C10.Legacy.lintModel SuppModel.Witness.C10.crashModule = .error .attributeError ∧
+    lintModel SuppModel.Witness.C10.crashModule = .ok [⟨"W01", "Unused name: zz", 2, 4⟩] :=
+  ⟨SuppModel.Witness.C10.legacy_crash, SuppModel.Witness.C10.fixed_answer⟩
 
 /-! ### non-vacuity -/
 
@@ -108,8 +111,8 @@ example : demoY ∈ demo.allNames ∧ demoSys ∈ demo.allNames ∧ TableWellKey
     (specFactsOf demoY false).Valid ∧ (specFactsOf demoSys false).Valid ∧
     spec (specFactsOf demoY false) = some .W01 ∧ spec (specFactsOf demoSys false) = some .W02 := by decide
 
--- `C10_once`, `C10_total_partial`: `lint` answers on `demo`; the first `os` is unused but exempt (dotted use)
-example : NoDupIds demo ∧ NoMultiLocals demo := by decide
+-- `C10_once`, `C10_total`: `lint` answers on `demo`; the first `os` is unused but exempt (dotted use)
+example : NoDupIds demo := by decide
 example : lintModel demo = .ok [
     ⟨"E02", "Undefined name: undefined_thing", 9, 10⟩,
     ⟨"W02", "Unused import: sys", 3, 7⟩,
